@@ -145,6 +145,9 @@ def run_case(inp):
             lows = [min(-2, N[d] - shape[d] - 1) for d in range(3)]
             corners = np.array([[int(r.integers(lows[d], max(N[d] - shape[d] + 3, lows[d] + 2))) for d in range(3)]
                                 for _ in range(nm)])
+            # (pixel sizes are dyadic here: at 0.3 or 0.1 nm a grid position k * scale comes back from the float32 division as
+            # k -+ 1e-7 px, which the code truncates to the neighbouring voxel and interpolates: such poses are not grid
+            # coincident in float32 and the exact-paste clause does not speak about them)
             pos_px = corners + c                                  # voxel-coincident poses
             sim = TomogramSimulator(order=order, scale=scale)
             sim.add_molecules(Molecules(pos_px * scale), tmpl)
@@ -180,8 +183,8 @@ def run_case(inp):
                 V("no-error", f"simulate_2d raised {type(e).__name__}: {str(e)[:120]}")
                 return viols
             zmax = int(np.ceil(pos_px[:, 0].max() + sum(shape))) + 2
-            inside = np.all(corners[:, 0] >= 0)
-            if inside:
+            # (also for molecules that straddle z = 0: what lies below the volume is clipped in 3-D and so in 2-D)
+            if True:
                 big = np.asarray(sim.simulate((zmax,) + tuple(N[1:])))
                 if not np.allclose(p2, big.sum(axis=0), atol=1e-3 * (1 + np.abs(big).max())):
                     V("projection", f"simulate_2d differs from the z-projection of the 3-D simulation by "
@@ -335,7 +338,7 @@ def oracle(rng, thorough, deep=False, hints=None):
     cases = []
     tshapes = [(5, 5, 5), (6, 6, 6), (4, 5, 6), (7, 6, 5), (3, 3, 4)]
     for it in range(30 if big else 10):
-        cases.append(dict(kind="exact", tshape=list(tshapes[it % len(tshapes)]), scale=float(rng.choice([1.0, 0.5, 1.625])),
+        cases.append(dict(kind="exact", tshape=list(tshapes[it % len(tshapes)]), scale=float(rng.choice([1.0, 0.5, 1.625, 0.25, 2.0])),
                           order=int(rng.choice([0, 1, 3])), volume=[int(x) for x in rng.integers(14, 22, size=3)],
                           nmol=[1, 3, 1, 4][it % 4], seed=int(rng.integers(0, 10 ** 6))))
     # volumes thinner than the template: fragments overhang both opposite faces
